@@ -27,6 +27,18 @@ inductive Res (α : Type) where
 def isDigit (c : Char) : Bool := 48 ≤ c.toNat && c.toNat ≤ 57
 def digitVal (c : Char) : Nat := c.toNat - 48
 
+def allDigits (s : Str) : Bool := !s.isEmpty && s.all isDigit
+def digitsVal (s : Str) : Nat := s.foldl (fun a c => 10 * a + digitVal c) 0
+
+/-- `impl TryInto<Number> for String` (after fix D8): `str::parse::<u16>` (optional leading `+`,
+    then one or more ASCII digits, value ≤ 65535) followed by the range check of `TryFrom<u16>`. -/
+def Number.ofString? (s : Str) : Option Number :=
+  let body := match s with | '+' :: r => r | _ => s
+  if allDigits body then
+    let v := digitsVal body
+    if v < 65536 then Number.ofNat? v else none
+  else none
+
 /-- `read_bond` -/
 def readBond : Str → BondKind × Str
   | '-' :: r => (.single, r)
@@ -176,7 +188,7 @@ def Configuration.al? (n : Nat) : Option Configuration := if 1 ≤ n ∧ n ≤ 2
 def Configuration.oh? (n : Nat) : Option Configuration := if 1 ≤ n ∧ n ≤ 30 then Configuration.all[1 + n]? else none
 def Configuration.sp? (n : Nat) : Option Configuration := if 1 ≤ n ∧ n ≤ 3 then Configuration.all[31 + n]? else none
 def Configuration.tb? (n : Nat) : Option Configuration := if 1 ≤ n ∧ n ≤ 20 then Configuration.all[34 + n]? else none
-def Configuration.th? (n : Nat) : Option Configuration := if 1 ≤ n ∧ n ≤ 2 then Configuration.all[55 + n]? else none
+def Configuration.th? (n : Nat) : Option Configuration := if 1 ≤ n ∧ n ≤ 2 then Configuration.all[54 + n]? else none
 
 def cfgRes (o : Option Configuration) (rest at_ : Str) : Res (Option Configuration) :=
   match o with
